@@ -329,3 +329,69 @@ Arguments cs_owner {cstate} c.
 Arguments cs_tx {cstate} c.
 Arguments cs_wire {cstate} c.
 Arguments cs_log {cstate} c.
+
+(** ---------- Connection.reader / reconnect / Responses over time ----------
+
+    Connection.reader selects between the next packet of the session and
+    time.After(reconnectTimeout) created anew in every iteration; pongs
+    (tcp.pong, 12 bytes) and auth nonces are consumed, everything else goes to
+    c.resp, the ONE channel made by NewConnection and returned by Responses().
+    A session is a list of arrivals (gap in ms since the reader returned to its
+    select, packet) ending when the packet channel is closed (error / EOF of the
+    transport), when nothing arrives for reconnectTimeout, or not at all.
+    The two flags describe other designs: [single_timer] = one timer started
+    with the reader and never re-armed; [chan_per_session] = c.resp made anew
+    by every (re)handshake while the application keeps the channel it got. *)
+Definition magic_tcp_pong : N := 3697933059.            (* 0xdc69fb03 *)
+Definition magic_tcp_auth_nonce : N := 3814542006.      (* 0xe35d4ab6 *)
+Definition reconnect_timeout_ms : N := 10000.
+
+Definition magic_type (p : list N) : N :=
+  match p with a :: b :: c :: d :: _ => of_le32 [a; b; c; d] | _ => 0 end.
+
+(* packets Connection.reader consumes itself *)
+Definition is_control (p : list N) : bool :=
+  ((magic_type p =? magic_tcp_pong) && (len p =? 12)) || (magic_type p =? magic_tcp_auth_nonce).
+
+Inductive arrival :=
+| APacket (gap : N) (p : list N)
+| AClosed (gap : N).          (* packetCh closed: handleIncomingPackets saw an error *)
+
+Inductive session_end := SRunning | SClosed | STimeout.
+
+(* one reader: packets put on c.resp, and how it ended; [elapsed] = ms since
+   the reader started (only the single-timer design looks at it) *)
+Fixpoint reader_run (single_timer : bool) (elapsed : N) (evs : list arrival)
+    : list (list N) * session_end :=
+  match evs with
+  | [] => ([], SRunning)
+  | AClosed gap :: _ =>
+      if (if single_timer then reconnect_timeout_ms <=? elapsed + gap
+          else reconnect_timeout_ms <=? gap) then ([], STimeout) else ([], SClosed)
+  | APacket gap p :: t =>
+      if (if single_timer then reconnect_timeout_ms <=? elapsed + gap
+          else reconnect_timeout_ms <=? gap) then ([], STimeout)
+      else
+        let '(ps, e) := reader_run single_timer (elapsed + gap) t in
+        (if is_control p then ps else p :: ps, e)
+  end.
+
+(* a Connection over its successive sessions: (channel, packet) deliveries;
+   the channel of session k is 0 unless a channel is made per session *)
+Fixpoint conn_run (single_timer chan_per_session : bool) (k : nat) (sessions : list (list arrival))
+    : list (nat * list N) :=
+  match sessions with
+  | [] => []
+  | evs :: t =>
+      map (fun p => (if chan_per_session then k else 0%nat, p)) (fst (reader_run single_timer 0 evs))
+      ++ conn_run single_timer chan_per_session (S k) t
+  end.
+
+(* what the application receives on the channel it took from Responses() once *)
+Definition app_received (deliveries : list (nat * list N)) : list (list N) :=
+  map snd (filter (fun d => Nat.eqb (fst d) 0) deliveries).
+
+Definition data_packets (evs : list arrival) : list (list N) :=
+  flat_map (fun a => match a with
+                     | APacket _ p => if is_control p then [] else [p]
+                     | AClosed _ => [] end) evs.
